@@ -9,7 +9,9 @@ def showCall (c : Call) : String :=
 * `enc <phased 0|1> <allele>*` → the int32 `_convert_to_encoding` writes for `Call(alleles, phased)`, or `err`
 * `dec <int32>`               → `<phased> <allele>*` of `_convert_from_encoding`, or `err`
 * `gt <phased 0|1> <allele>*`  → `Call(alleles, phased).unphased_diploid_gt_index()`, or `err`
-* `sqrt <i>`                  → `j k` of `allele_pair_sqrt(i)`, or `err` -/
+* `sqrt <i>`                  → `j k` of `allele_pair_sqrt(i)`, or `err`
+* `json <phased 0|1> <allele>*` → `<phased> <allele>*` of `_convert_from_json(_convert_to_json(Call(alleles, phased)))`
+  (the JSON text is `str(call)`; the model of that round trip is the identity on the constructed call), or `err` -/
 def handle (line : String) : String :=
   match words line with
   | "enc" :: ph :: rest =>
@@ -30,6 +32,13 @@ def handle (line : String) : String :=
     | some al =>
       match (mkCall al (ph == "1")).bind unphasedDiploidGtIndex with
       | some v => toString v
+      | none => "err"
+    | none => "bad-op"
+  | "json" :: ph :: rest =>
+    match nats? rest with
+    | some al =>
+      match mkCall al (ph == "1") with
+      | some c => showCall c
       | none => "err"
     | none => "bad-op"
   | ["sqrt", i] =>
